@@ -788,6 +788,13 @@ class Executor(object):
             st.ofields[attr] = f
         return f(v.t)
 
+    def opaque_field_at(self, st, ev, v, attr):
+        """value of a tracked opaque field as it was when event `ev` happened (before the callee could change it)"""
+        tmp = st.fork()
+        tmp.ofields = dict(getattr(ev, 'pre_ofields', st.ofields))
+        tmp.epoch = getattr(ev, 'pre_epoch', st.epoch)
+        return self.opaque_field(tmp, v, attr)
+
     def _ofield_base(self, st, attr, ty):
         cache = self.__dict__.setdefault('_ofield_cache', {})
         key = (attr, st.epoch if attr not in (self.cur_target or {}).get('stable_fields', ()) else 0)
@@ -1427,11 +1434,13 @@ class Executor(object):
         outs = []
         for t in expand_unions(parse_type(rty)):
             s2 = st.fork()
+            pre_ofields, pre_epoch = dict(s2.ofields), s2.epoch
             if not spec.get('pure'):
                 self.havoc_opaque_fields(s2)
             res = self.fresh(s2, t, 'r_' + short)
             ev = Event(short, args, kwargs, res, dict(s2.ghost), lineno, recv=recv)
             ev.key, ev.full = key, name
+            ev.pre_ofields, ev.pre_epoch = pre_ofields, pre_epoch
             ev.quant = getattr(s2, 'qinfo', None)
             s2.trace.append(ev)
             for m in spec.get('havoc', []):
